@@ -490,6 +490,68 @@ theorem nearest_separated_returns_closest : ∀ (axes : List (List K)) (p : List
           rw [hg]
           exact add_le_add (hmin t ht) this
 
+/-- **Definedness companion** of `nearest_separated_returns_closest`: inside the sampled domain (per-axis knots
+strictly monotone in either direction, at least two of them) the per-axis search succeeds on every axis -/
+theorem nearestIdx_defined : ∀ (axes : List (List K)) (p : List K),
+    (∀ ax ∈ axes, 2 ≤ ax.length ∧ StrictMono ax) → InDomain axes p → ∃ idx, nearestIdx axes p = some idx := by
+  intro axes
+  induction axes with
+  | nil =>
+    intro p _ hin
+    cases p with
+    | nil => exact ⟨[], rfl⟩
+    | cons x p => simp [InDomain] at hin
+  | cons ax rest ih =>
+    intro p hax hin
+    cases p with
+    | nil => simp [InDomain] at hin
+    | cons x p =>
+      obtain ⟨h1, h2⟩ := hin
+      obtain ⟨i, hi⟩ := nearestAxis_defined ax x (hax ax (by simp)).1 (hax ax (by simp)).2 h1
+      obtain ⟨idx, hidx⟩ := ih p (fun a ha => hax a (by simp [ha])) h2
+      exact ⟨i :: idx, by simp [nearestIdx, hi, hidx]⟩
+
+/-- **Nearest neighbour on separated grids returns the value at a closest grid point**: whenever the
+interpolator built from the samples `f q` (`q` running over the grid in hcipy order) returns a value at `p`, that
+value is `f q` for a grid point `q` at minimal distance from `p` among all grid points. -/
+theorem nearestSeparated_value (sep : List (List K)) (f : List K → K) (p : List K) (v : K)
+    (hs : ∀ ax ∈ sep, StrictMono ax) (h : nearestSeparated sep ((gridPts sep).map f) p = some v) :
+    ∃ q ∈ gridPts sep, v = f q ∧ ∀ q' ∈ gridPts sep, dist2 q p ≤ dist2 q' p := by
+  unfold nearestSeparated at h
+  cases hi : nearestIdx sep.reverse p.reverse with
+  | none => simp [hi] at h
+  | some idx =>
+    rw [hi] at h
+    simp only at h
+    obtain ⟨hok, hlen⟩ := nearestIdx_ok sep.reverse p.reverse idx hi
+    have hget := tensorPts_getElem?_ravel sep.reverse idx hok
+    simp only [gridPts, List.map_map, List.getElem?_map, hget, Option.map_some, Function.comp,
+      Option.some.injEq] at h
+    refine ⟨(pointAt sep.reverse idx).reverse, ?_, h.symm, ?_⟩
+    · exact List.mem_map.mpr ⟨_, pointAt_mem _ _ hok, rfl⟩
+    · intro q' hq'
+      obtain ⟨t, ht, rfl⟩ := List.mem_map.mp hq'
+      have hmin := nearest_separated_returns_closest sep.reverse p.reverse idx
+        (fun ax ha => hs ax (List.mem_reverse.mp ha)) hi t ht
+      have hl1 : (pointAt sep.reverse idx).length = p.reverse.length := by
+        rw [tensorPts_length _ _ (pointAt_mem _ _ hok), hlen]
+      have hl2 : t.length = p.reverse.length := by rw [tensorPts_length _ _ ht, hlen]
+      have e1 := dist2_reverse (pointAt sep.reverse idx) p.reverse hl1
+      have e2 := dist2_reverse t p.reverse hl2
+      rw [List.reverse_reverse] at e1 e2
+      rw [e1, e2]
+      exact hmin
+
+/-- … and it does return a value at every point of the sampled domain -/
+theorem nearestSeparated_defined (sep : List (List K)) (f : List K → K) (p : List K)
+    (hax : ∀ ax ∈ sep, 2 ≤ ax.length ∧ StrictMono ax) (hin : InDomain sep.reverse p.reverse) :
+    ∃ v, nearestSeparated sep ((gridPts sep).map f) p = some v := by
+  obtain ⟨idx, hi⟩ := nearestIdx_defined sep.reverse p.reverse (fun ax ha => hax ax (List.mem_reverse.mp ha)) hin
+  obtain ⟨hok, _⟩ := nearestIdx_ok sep.reverse p.reverse idx hi
+  have hget := tensorPts_getElem?_ravel sep.reverse idx hok
+  exact ⟨f (pointAt sep.reverse idx).reverse, by
+    simp only [nearestSeparated, hi, gridPts, List.map_map, List.getElem?_map, hget, Option.map_some, Function.comp]⟩
+
 /-! ## binning -/
 
 /-- **`statistic='sum'` conserves the total**, any shape, any factor. -/
